@@ -3,7 +3,11 @@
 //! all names of <= 2 labels over 26 labels (case pairs, octets around the letter ranges
 //! 0x40/0x5b/0x60/0x7b, '.', '\\', ' ', '*', digits and escape look-alikes, 0x00, 0x7f, 0x80, 0xff,
 //! a 63-octet label and its case variant), all names of 3 labels over 6 of them, and long names
-//! (255 octets in 4 labels, 127 one-octet labels, case variants).
+//! (255 octets in 4 labels, 127 one-octet labels, case variants); names whose labels contain BINARY
+//! octets equal to plausible length octets, next to the names whose wire form is a raw-octet suffix of
+//! theirs without being a label-wise suffix (a\007example.test. / example.test., \004test. / test.,
+//! x\001a. / a., \001a.b. / a.b., ..., with case variants); and names whose TEXT form is longer than 255
+//! characters because their octets are escaped (\DDD, \. , \\): up to the 255-octet wire maximum.
 //! Checked: Display -> FromStr gives the identical wire form; text acceptance at the limits
 //! (63/64-octet labels, 255/256-octet names, absolute/relative, empty labels, \DDD for all
 //! 1000 three-digit values); for every PAIR of names: == iff the labels are equal ignoring ASCII
@@ -88,6 +92,28 @@ fn universe() -> Vec<Labels> {
     let many: Labels = (0..127).map(|i| vec![b'a' + (i % 26) as u8]).collect();
     u.push(long4.iter().map(|l| l.to_ascii_uppercase()).collect()); u.push(long4);
     u.push(many.iter().map(|l| l.to_ascii_uppercase()).collect()); u.push(many);
+    // labels holding an octet that looks like a length octet: the wire form of the second name of each
+    // group is a suffix of the octets of the first, but its labels are not a suffix of the first's labels
+    let l = |parts: &[&[u8]]| -> Labels { parts.iter().map(|p| p.to_vec()).collect() };
+    for n in [
+        l(&[b"a\x07example", b"test"]), l(&[b"example", b"test"]), l(&[b"\x07example", b"test"]), l(&[b"a", b"example", b"test"]),
+        l(&[b"\x04test"]), l(&[b"test"]), l(&[b"x\x04test"]), l(&[b"x", b"test"]),
+        l(&[b"x\x01a"]), l(&[b"\x01a"]), l(&[b"\x01a", b"b"]), l(&[b"\x01a\x01b"]), l(&[b"a\x01b"]), l(&[b"x\x01a", b"b"]),
+        l(&[b"a\x00"]), l(&[b"a", b"\x00"]), l(&[b"b\x02a\x00"]), l(&[b"\x02ab", b"\x01a"]), l(&[b"ab", b"\x01a"]), l(&[b"ab", b"a"]),
+    ] {
+        u.push(n.iter().map(|l| l.to_ascii_uppercase()).collect()); u.push(n);
+    }
+    // text form longer than 255 characters: every octet is escaped (4 or 2 characters each)
+    for o in [0x00u8, 0xff, b'.', b'\\'] {
+        u.push(vec![vec![o; 63], b"a".to_vec()]);                              // text of 255 characters when o is \DDD
+        u.push(vec![vec![o; 63], b"ab".to_vec()]);                             // ... of 256
+        u.push(vec![vec![o; 63], vec![o; 63]]);
+        u.push(vec![vec![o; 63], vec![o; 63], vec![o; 63], vec![o; 61]]);      // 255 octets
+    }
+    u.push((0..127).map(|_| vec![0x07]).collect());                            // 127 labels, 635 characters
+    u.push((0..127).map(|i| vec![[0x07u8, b'.', 0xe9, b'a'][i % 4]]).collect());
+    let mixed: Vec<u8> = (0..63).map(|i| [0x00u8, b'A', b'.', 0x80, b'\\', b'z', b' '][i % 7]).collect();
+    u.push(vec![mixed.clone(), mixed.clone(), mixed.to_ascii_lowercase(), mixed[..61].to_vec()]);     // 255 octets, mixed escapes
     u
 }
 
@@ -167,11 +193,18 @@ fn main() {
         texts.push(format!("{0}.{0}.{0}.{1}", x(63), x(last)));
     }
     for n in [125, 126, 127, 128, 129] { texts.push("a.".repeat(n)); }
+    // the same limits written with escapes: texts of up to 1008 characters for names of 254..256 octets
+    for esc in ["\\120", "\\000", "\\.", "\\x"] {
+        let e = |n: usize| esc.repeat(n);
+        for n in [63, 64] { texts.push(format!("{}.", e(n))); texts.push(format!("a.{}.b.", e(n))); }
+        for last in [60, 61, 62] { texts.push(format!("{0}.{0}.{0}.{1}.", e(63), e(last))); texts.push(format!("{0}.{0}.{0}.{1}", e(63), e(last))); }
+        for n in [126, 127, 128] { texts.push(format!("{esc}.").repeat(n)); }
+    }
     for t in &texts {
         cases += 1;
         let got = total("FromStr for Box<Name>", t, || t.parse::<Box<Name>>()).ok().map(|n| n.wire_repr().to_vec());
         let want = ref_text(t.as_bytes()).map(|l| wire_of(&l));
         if got != want { fail("text parsing differs from RFC 1035 5.1 (absolute names of <= 255 octets, labels <= 63; None = must be refused)", t, &got, &want); }
     }
-    done(cases, &format!("{} names (all of <= 2 labels over 26 labels, 3 labels over 6, 255-octet and 127-label names) one by one and in all {} ordered pairs; {} texts at the limits", uni.len(), uni.len() * uni.len(), texts.len()))
+    done(cases, &format!("{} names (all of <= 2 labels over 26 labels, 3 labels over 6, 255-octet and 127-label names, 40 names with binary octets that look like length octets next to their raw-octet-suffix look-alikes, 19 names of 66..255 octets made of octets that are escaped in text (0x00, 0xff, '.', '\\', 0x07, mixed; text forms of up to 1004 characters)) one by one and in all {} ordered pairs; {} texts at the limits (plain and written with \\DDD / \\X escapes, up to 1008 characters)", uni.len(), uni.len() * uni.len(), texts.len()))
 }
